@@ -219,6 +219,13 @@ func checkC12(c *hx.Checker) {
 			}
 			tall := &ref.T{DT: dt, Shape: []int{len(all)}, V: all}
 			add(hx.TensorProto("", tall, enc), "exact", tall, fmt.Sprintf("%s/%s/all-values(%d)", dt, enc, len(all)), append(base, "all-values")...)
+			if dt == ref.Bool && enc == "raw" {
+				// raw BOOL bytes other than 0 and 1 (masks written as 0xFF, flag bytes): every non-zero byte is true
+				tp := hx.TensorProto("", &ref.T{DT: ref.Bool, Shape: []int{6}, V: []uint64{0, 1, 1, 1, 1, 0}}, "raw")
+				tp.RawData = []byte{0, 1, 2, 0xff, 0x80, 0}
+				exp := &ref.T{DT: ref.Bool, Shape: []int{6}, V: []uint64{0, 1, 1, 1, 1, 0}}
+				add(tp, "exact", exp, "bool/raw/non-canonical-true-bytes", append(base, "non-canonical-bool-bytes")...)
+			}
 			// larger payloads with odd element counts (decoders that split the work into blocks)
 			for _, sh := range [][]int{{1027}, {4099}, {3, 1367}, {32771}, {65539}, {7, 9363}} {
 				t := patternFill(dt, sh, len(sh)+sh[0])
@@ -235,10 +242,44 @@ func checkC12(c *hx.Checker) {
 					if n > 1 {
 						faults["raw-1elem"] = raw[:len(raw)-w]
 					}
+					// every number of surplus bytes short of a whole element
+					for k := 2; k < w; k++ {
+						faults[fmt.Sprintf("raw+%dbytes", k)] = append(append([]byte{}, raw...), raw[:k]...)
+					}
 					for name, fb := range faults {
 						tp := hx.TensorProto("", t, "raw")
 						tp.RawData = fb
 						add(tp, "error", nil, fmt.Sprintf("%s/raw/%v/%s", dt, sh, name), append(base, "fault="+name, "payload-count-mismatch")...)
+						// the same damaged raw payload next to a populated typed field that this type does not read (two
+						// irregularities at once: a length check that is skipped when "some typed field is in use")
+						if name == "raw-empty" {
+							continue
+						}
+						ownTP := hx.TensorProto("", t, "typed")
+						ownCarrier := map[bool]string{true: "float"}[len(ownTP.FloatData) > 0] + map[bool]string{true: "double"}[len(ownTP.DoubleData) > 0] +
+							map[bool]string{true: "int32"}[len(ownTP.Int32Data) > 0] + map[bool]string{true: "int64"}[len(ownTP.Int64Data) > 0] + map[bool]string{true: "uint64"}[len(ownTP.Uint64Data) > 0]
+						for _, stray := range []string{"float", "int32", "int64", "double", "uint64", "string"} {
+							if stray == ownCarrier {
+								continue // that would be this type's own typed encoding, not a stray field
+							}
+							tp := hx.TensorProto("", t, "raw")
+							tp.RawData = fb
+							switch stray {
+							case "float":
+								tp.FloatData = []float32{1}
+							case "int32":
+								tp.Int32Data = []int32{1}
+							case "int64":
+								tp.Int64Data = []int64{1}
+							case "double":
+								tp.DoubleData = []float64{1}
+							case "uint64":
+								tp.Uint64Data = []uint64{1}
+							case "string":
+								tp.StringData = [][]byte{[]byte("x")}
+							}
+							add(tp, "error", nil, fmt.Sprintf("%s/raw/%v/%s+stray-%s", dt, sh, name, stray), append(base, "fault="+name+"+stray-field", "payload-count-mismatch")...)
+						}
 					}
 				} else {
 					for name, k := range map[string]int{"typed-1elem": n - 1, "typed+1elem": n + 1, "typed+3elem": n + 3} {
